@@ -3,3 +3,4 @@ import Siot.Props.C14
 import Siot.Props.C16
 import Siot.Props.C17
 import Siot.Props.C18
+import Siot.Props.C19
